@@ -7,6 +7,6 @@ P="$1"
 cd /repo || exit 2
 git diff --quiet || { echo "repo working tree not clean"; exit 2; }
 git apply "$P" || { echo "patch does not apply"; exit 2; }
-/verif/bin/ycheck -property all -tier quick 2>&1 | grep -v "^KNOWN-FINDING" | grep -E "^  violated|^  undecided|^VIOLATION|^UNDECIDED" | cut -c1-400
+/verif/bin/ycheck -property all -tier quick -evidence-dir /tmp/evalpatch-evidence 2>&1 | grep -v "^KNOWN-FINDING" | grep -E "^  violated|^  undecided|^VIOLATION|^UNDECIDED" | cut -c1-400
 git checkout -- . 
 git diff --quiet && echo "(repo restored)"
